@@ -30,7 +30,7 @@ func cpuNow() int64 {
 // cpuBudgetNs is T(n): fixed affine-in-n^2 budget (see DESIGN C20), >= 10x the worst case
 // measured on the valid and mutated corpora of the unchanged tree.
 func cpuBudgetNs(n int) int64 {
-	return int64(12e9) + int64(n)*int64(n)*2000
+	return int64(30e9) + int64(n)*int64(n)*2000
 }
 
 // memBudget is M(n): memory obtained from the OS may grow by at most this for one input.
